@@ -8,6 +8,7 @@ use srh::hash_util::*;
 use srh::out::*;
 use srh::rec::{record, toks_sx};
 use srh::rng::Rng;
+use srh::sx;
 use stateright::actor::{ActorModelState, Envelope, Id, Network};
 use stateright::util::{DenseNatMap, HashableHashMap, HashableHashSet, VectorClock};
 use std::collections::{BTreeMap, BTreeSet, VecDeque};
@@ -60,6 +61,254 @@ fn run<T: U>(out: &mut Out, r: &mut Rng, n: usize) {
     out.stat_n(&format!("type {}", if ty.len() > 60 { &ty[..60] } else { &ty }), n as u64);
 }
 
+
+
+// ---------------------------------------------------------------- the consistency testers
+
+use stateright::semantics::register::{Register, RegisterOp, RegisterRet};
+use stateright::semantics::vec::{VecOp, VecRet};
+use stateright::semantics::write_once_register::{WORegister, WORegisterOp, WORegisterRet};
+use stateright::semantics::{ConsistencyTester, LinearizabilityTester, SequentialConsistencyTester, SequentialSpec};
+
+/// tree of a `{:?}` rendering (the testers' fields are private; `Debug` is derived, so it shows exactly them)
+#[derive(Debug, Clone)]
+enum D {
+    Num(String),
+    Node(String, Vec<D>),
+    Fields(Vec<(String, D)>),
+    Map(Vec<(D, D)>),
+    Seq(Vec<D>),
+    Tup(Vec<D>),
+}
+struct DP<'a> {
+    s: &'a [u8],
+    i: usize,
+}
+impl<'a> DP<'a> {
+    fn ws(&mut self) {
+        while self.i < self.s.len() && (self.s[self.i] == b' ' || self.s[self.i] == b',') {
+            self.i += 1;
+        }
+    }
+    fn peek(&mut self) -> u8 {
+        self.ws();
+        if self.i < self.s.len() { self.s[self.i] } else { 0 }
+    }
+    fn items(&mut self, close: u8) -> Vec<D> {
+        let mut v = vec![];
+        while self.peek() != close {
+            v.push(self.val());
+        }
+        self.i += 1;
+        v
+    }
+    fn val(&mut self) -> D {
+        let c = self.peek();
+        match c {
+            b'[' => { self.i += 1; D::Seq(self.items(b']')) }
+            b'(' => { self.i += 1; D::Tup(self.items(b')')) }
+            b'{' => {
+                self.i += 1;
+                let mut v = vec![];
+                while self.peek() != b'}' {
+                    let k = self.val();
+                    assert_eq!(self.peek(), b':');
+                    self.i += 1;
+                    v.push((k, self.val()));
+                }
+                self.i += 1;
+                D::Map(v)
+            }
+            b'0'..=b'9' => {
+                let st = self.i;
+                while self.i < self.s.len() && self.s[self.i].is_ascii_digit() { self.i += 1; }
+                D::Num(String::from_utf8(self.s[st..self.i].to_vec()).unwrap())
+            }
+            _ => {
+                let st = self.i;
+                while self.i < self.s.len() && (self.s[self.i].is_ascii_alphanumeric() || self.s[self.i] == b'_') { self.i += 1; }
+                let name = String::from_utf8(self.s[st..self.i].to_vec()).unwrap();
+                assert!(!name.is_empty(), "debug parse at {}", self.i);
+                if self.i < self.s.len() && self.s[self.i] == b'(' {
+                    self.i += 1;
+                    D::Node(name, self.items(b')'))
+                } else if self.s[self.i..].starts_with(b" {") {
+                    self.i += 2;
+                    let mut v = vec![];
+                    while self.peek() != b'}' {
+                        let st = self.i;
+                        while self.s[self.i] != b':' { self.i += 1; }
+                        let f = String::from_utf8(self.s[st..self.i].to_vec()).unwrap();
+                        self.i += 1;
+                        v.push((f, self.val()));
+                    }
+                    self.i += 1;
+                    D::Fields(v)
+                } else {
+                    D::Node(name, vec![])
+                }
+            }
+        }
+    }
+}
+fn dnum(d: &D) -> String {
+    match d { D::Num(n) => n.clone(), _ => panic!("number expected: {:?}", d) }
+}
+fn dopt(d: &D) -> String {
+    match d {
+        D::Node(n, a) if n == "None" && a.is_empty() => "(0 u)".into(),
+        D::Node(n, a) if n == "Some" => format!("(1 {})", dnum(&a[0])),
+        _ => panic!("option expected: {:?}", d),
+    }
+}
+/// a derived enum value: variant names in declaration order with the payload converter of each
+fn denum(d: &D, variants: &[(&str, Option<fn(&D) -> String>)]) -> String {
+    if let D::Node(n, a) = d {
+        for (i, (name, conv)) in variants.iter().enumerate() {
+            if n == name {
+                return match conv { None => format!("({} u)", i), Some(f) => format!("({} {})", i, f(&a[0])) };
+            }
+        }
+    }
+    panic!("enum value expected: {:?}", d)
+}
+/// per reference object: (type codes obj/op/ret, converters)
+struct ObjKind {
+    tys: (&'static str, &'static str, &'static str),
+    obj: fn(&D) -> String,
+    op: fn(&D) -> String,
+    ret: fn(&D) -> String,
+}
+const K_REG: ObjKind = ObjKind {
+    tys: ("u8", "(enum2 u8 unit)", "(enum2 unit u8)"),
+    obj: |d| match d { D::Node(_, a) => dnum(&a[0]), _ => panic!() },
+    op: |d| denum(d, &[("Write", Some(dnum)), ("Read", None)]),
+    ret: |d| denum(d, &[("WriteOk", None), ("ReadOk", Some(dnum))]),
+};
+const K_WO: ObjKind = ObjKind {
+    tys: ("(opt u8)", "(enum2 u8 unit)", "(enum3 unit unit (opt u8))"),
+    obj: |d| match d { D::Node(_, a) => dopt(&a[0]), _ => panic!() },
+    op: |d| denum(d, &[("Write", Some(dnum)), ("Read", None)]),
+    ret: |d| denum(d, &[("WriteOk", None), ("WriteFail", None), ("ReadOk", Some(dopt))]),
+};
+const K_VEC: ObjKind = ObjKind {
+    tys: ("(vec u8)", "(enum3 u8 unit unit)", "(enum3 unit (opt u8) usize)"),
+    obj: |d| match d { D::Seq(a) => sx::list(a.iter().map(dnum)), _ => panic!() },
+    op: |d| denum(d, &[("Push", Some(dnum)), ("Pop", None), ("Len", None)]),
+    ret: |d| denum(d, &[("PushOk", None), ("PopOk", Some(dopt)), ("LenOk", Some(dnum))]),
+};
+fn dmap(d: &D, f: &dyn Fn(&D) -> String) -> String {
+    match d { D::Map(es) => sx::list(es.iter().map(|(k, v)| format!("({} {})", dnum(k), f(v)))), _ => panic!("map expected: {:?}", d) }
+}
+/// (type code, value) of a tester from its Debug rendering
+fn tester_sx(debug: &str, k: &ObjKind, lin: bool) -> (String, String) {
+    let mut p = DP { s: debug.as_bytes(), i: 0 };
+    let d = p.val();
+    let fs = match d { D::Fields(fs) => fs, _ => panic!("struct expected") };
+    let get = |n: &str| fs.iter().find(|(f, _)| f == n).map(|(_, v)| v.clone()).unwrap();
+    let obj = (k.obj)(&get("init_ref_obj"));
+    let lc = |d: &D| dmap(d, &|v| dnum(v));
+    let hist = dmap(&get("history_by_thread"), &|v| match v {
+        D::Seq(es) => sx::list(es.iter().map(|e| match e {
+            D::Tup(t) if lin => format!("({} ({} {}))", lc(&t[0]), (k.op)(&t[1]), (k.ret)(&t[2])),
+            D::Tup(t) => format!("({} {})", (k.op)(&t[0]), (k.ret)(&t[1])),
+            _ => panic!(),
+        })),
+        _ => panic!(),
+    });
+    let infl = dmap(&get("in_flight_by_thread"), &|v| match v {
+        D::Tup(t) if lin => format!("({} {})", lc(&t[0]), (k.op)(&t[1])),
+        other => (k.op)(other),
+    });
+    let valid = match get("is_valid_history") { D::Node(n, _) => if n == "true" { "t" } else { "f" }, _ => panic!() };
+    let ty = format!("({} u8 {} {} {})", if lin { "lin" } else { "sc" }, k.tys.0, k.tys.1, k.tys.2);
+    (ty, format!("({} ({} ({} {})))", obj, hist, infl, valid))
+}
+
+/// one step of a random history: Some(op) = invoke, None = return
+#[derive(Clone, Debug)]
+enum Ev<Op, Ret> { Inv(u8, Op), Ret(u8, Ret) }
+
+fn run_testers<O, T>(out: &mut Out, r: &mut Rng, count: usize, k: &ObjKind, lin: bool,
+    mk: &dyn Fn(O) -> T, init: &dyn Fn(&mut Rng) -> O, gop: &dyn Fn(&mut Rng) -> O::Op, gret: &dyn Fn(&mut Rng) -> O::Ret)
+where
+    O: SequentialSpec + Clone,
+    O::Op: Clone + std::fmt::Debug,
+    O::Ret: Clone + std::fmt::Debug + PartialEq,
+    T: ConsistencyTester<u8, O> + std::hash::Hash + PartialEq + Clone + std::fmt::Debug,
+{
+    let apply = |t: &mut T, evs: &[Ev<O::Op, O::Ret>]| {
+        for e in evs {
+            let _ = match e { Ev::Inv(th, op) => t.on_invoke(*th, op.clone()).map(|_| ()), Ev::Ret(th, ret) => t.on_return(*th, ret.clone()).map(|_| ()) };
+        }
+    };
+    for c in 0..count {
+        let obj = init(r);
+        // per-thread programs (alternating invoke/return), then a random interleaving
+        let threads = 1 + r.below(3);
+        let mut progs: Vec<Vec<Ev<O::Op, O::Ret>>> = (0..threads).map(|t| {
+            let n = r.below(5);
+            (0..n).map(|i| if i % 2 == 0 { Ev::Inv(t as u8, gop(r)) } else { Ev::Ret(t as u8, gret(r)) }).collect()
+        }).collect();
+        if r.chance(1, 12) && !progs[0].is_empty() { let e = progs[0][0].clone(); progs[0].insert(0, e); } // protocol error => invalid history
+        let interleave = |r: &mut Rng, progs: &Vec<Vec<Ev<O::Op, O::Ret>>>| {
+            let mut ps = progs.clone();
+            let mut evs = vec![];
+            while ps.iter().any(|p| !p.is_empty()) {
+                let i = r.below(ps.len());
+                if !ps[i].is_empty() { evs.push(ps[i].remove(0)); }
+            }
+            evs
+        };
+        let evs = interleave(r, &progs);
+        let mut a = mk(obj.clone());
+        apply(&mut a, &evs);
+        let (ty, va) = tester_sx(&format!("{:?}", a), k, lin);
+        let ta = record(&a);
+        out.m(&format!("toks {} {} ()", ty, va), &toks_sx(&ta));
+        out.distinct(&(ty.clone(), va.clone()));
+        // another build: the same events again (linearizability: same interleaving; sequential consistency: ANY interleaving
+        // of the same per-thread programs gives the same tester unless the protocol error made the history invalid)
+        let evs2 = if lin { evs.clone() } else { interleave(r, &progs) };
+        let mut b = mk(obj.clone());
+        apply(&mut b, &evs2);
+        let (_, vb) = tester_sx(&format!("{:?}", b), k, lin);
+        let same = va == vb;
+        out.o(&format!("o-pair {} {} {} {} {} {}", ty, va, vb, sx::b(ta == record(&b)), sx::b(a == b), if same { "eq" } else { "any" }));
+        out.stat(if same { "tester-rebuilds-equal" } else { "tester-rebuilds-different(invalid-history-cut)" });
+        // near pair: one more event, or the same history on another initial object
+        let mut w = a.clone();
+        let th = r.below(threads + 1) as u8;
+        match r.below(3) {
+            0 => { let _ = w.on_invoke(th, gop(r)).map(|_| ()); }
+            1 => { let _ = w.on_return(th, gret(r)).map(|_| ()); }
+            _ => { w = mk(init(r)); apply(&mut w, &evs); }
+        }
+        let (_, vw) = tester_sx(&format!("{:?}", w), k, lin);
+        out.m(&format!("toks {} {} ()", ty, vw), &toks_sx(&record(&w)));
+        out.o(&format!("o-pair {} {} {} {} {} any", ty, va, vw, sx::b(ta == record(&w)), sx::b(a == w)));
+        out.stat(if a == w { "tester-near-pairs-equal" } else { "tester-near-pairs-different" });
+        if c == 0 { out.sample(&format!("toks {} {} => {}", ty, va, toks_sx(&ta))); }
+    }
+    out.stat_n(&format!("testers {} {}", if lin { "linearizability" } else { "sequential-consistency" }, k.tys.0), count as u64);
+}
+
+fn testers(out: &mut Out, r: &mut Rng, n: usize) {
+    let v = |r: &mut Rng| r.below(3) as u8;
+    let ov = |r: &mut Rng| if r.chance(1, 3) { None } else { Some(r.below(3) as u8) };
+    let reg_op = move |r: &mut Rng| if r.chance(1, 2) { RegisterOp::Write(v(r)) } else { RegisterOp::Read };
+    let reg_ret = move |r: &mut Rng| if r.chance(1, 2) { RegisterRet::WriteOk } else { RegisterRet::ReadOk(v(r)) };
+    let wo_op = move |r: &mut Rng| if r.chance(1, 2) { WORegisterOp::Write(v(r)) } else { WORegisterOp::Read };
+    let wo_ret = move |r: &mut Rng| match r.below(3) { 0 => WORegisterRet::WriteOk, 1 => WORegisterRet::WriteFail, _ => WORegisterRet::ReadOk(ov(r)) };
+    let vec_op = move |r: &mut Rng| match r.below(3) { 0 => VecOp::Push(v(r)), 1 => VecOp::Pop, _ => VecOp::Len };
+    let vec_ret = move |r: &mut Rng| match r.below(3) { 0 => VecRet::PushOk, 1 => VecRet::PopOk(ov(r)), _ => VecRet::LenOk(r.below(3)) };
+    run_testers::<Register<u8>, _>(out, r, n, &K_REG, true, &LinearizabilityTester::new, &|r| Register(v(r)), &reg_op, &reg_ret);
+    run_testers::<Register<u8>, _>(out, r, n, &K_REG, false, &SequentialConsistencyTester::new, &|r| Register(v(r)), &reg_op, &reg_ret);
+    run_testers::<WORegister<u8>, _>(out, r, n, &K_WO, true, &LinearizabilityTester::new, &|r| WORegister(ov(r)), &wo_op, &wo_ret);
+    run_testers::<WORegister<u8>, _>(out, r, n, &K_WO, false, &SequentialConsistencyTester::new, &|r| WORegister(ov(r)), &wo_op, &wo_ret);
+    run_testers::<Vec<u8>, _>(out, r, n, &K_VEC, true, &LinearizabilityTester::new, &|r| (0..r.below(3)).map(|_| v(r)).collect(), &vec_op, &vec_ret);
+    run_testers::<Vec<u8>, _>(out, r, n, &K_VEC, false, &SequentialConsistencyTester::new, &|r| (0..r.below(3)).map(|_| v(r)).collect(), &vec_op, &vec_ret);
+}
 
 // ---------------------------------------------------------------- stream 3: reachable states of small actor systems
 
@@ -285,7 +534,7 @@ fn main() {
     let mut out = Out::new();
     out.max_samples = 12;
     let mut r = Rng::new(seed());
-    let k = if thorough() { 12 } else { 1 };
+    let k = if thorough() { 36 } else { 3 };
     macro_rules! go { ($n:expr; $($t:ty),* $(,)?) => { $( run::<$t>(&mut out, &mut r, $n * k); )* } }
     // scalars and std containers
     go!(10; u8, u32, u64, usize, bool, (), String, Id, Option<u8>, Option<String>, (u8, u32), (String, String),
@@ -317,6 +566,7 @@ fn main() {
         HashableHashMap<String, Vec<u8>>, HashableHashMap<String, Vec<Id>>, Vec<HashableHashMap<String, Vec<u8>>>);
     // actor-system states
     go!(250; St1, St2, St3, St4);
+    testers(&mut out, &mut r, 150 * k);
     systems(&mut out, &mut r, 120 * k);
     out.finish();
 }
